@@ -45,3 +45,7 @@ for fn in ('contains_forbidden_domain_code_point_or_upper', 'contains_forbidden_
 both('C01.has_tabs_or_newline.complete@sse2', ['C01', 'C18', 'C02'], 'auto', roots=['has_tabs_or_newline'],
      specs={'has_tabs_or_newline': 'has_tabs_or_newline.spec'}, enforce='has_tabs_or_newline', loop_contracts=True, includes=INC,
      note='returns false only if no tab/LF/CR occurs anywhere (SSE2 kernel: aligned blocks + overlapping tail; short inputs via any_of)')
+
+OBLS.append(Obl('C01.shorten_path.twin/b12', ['C01', 'C04', 'C02'], 'B(12)', 'c01/shorten_path.c', roots=['shorten_path_sv', 'shorten_path_str'], bufn=12, unwind=14,
+                defines=['STR_CAP=12', 'BUF_START=1'], includes=['spec/urlspec.h', 'spec/scan.h'], enums=[('ada::scheme::type', 'FILE')], solver='cadical', timeout=900,
+                bound='path <= 12 bytes', note='both shorten_path overloads == the Standard\'s "shorten a url\'s path" (lone normalized drive letter of a file URL is kept)'))
